@@ -154,7 +154,7 @@ Proof.
   unfold sub_byset. destruct k as [l|]; [|intros H _; inversion H; subst; reflexivity].
   destruct (fq =? this) eqn:E.
   - unfold construct_byset. cbv zeta.
-    set (P := fun num => (Z.gcd interval base =? 1) || ((num - start) mod Z.gcd interval base =? 0)).
+    set (P := fun num => (0 <=? num) && (num <? base) && ((Z.gcd interval base =? 1) || ((num - start) mod Z.gcd interval base =? 0))).
     destruct (filter P l) as [|x c] eqn:Ec; [discriminate|].
     assert (Hcc : x :: c <> []) by discriminate. remember (x :: c) as cc eqn:Ecc. clear Ecc.
     intros H Hn. injection H as Hr Ho. subst r o.
@@ -179,6 +179,7 @@ Lemma ctor_eq ev st kw fq rm om ry oy re oe rp rn omd rw ow rwd rnwd owd rh oh r
   let interval := match k_interval kw with Some i => i | None => 1 end in
   match k_until kw with Some u => negb (Bool.eqb (aware start) (aware u)) | None => false end = false ->
   match k_bysetpos kw with Some l => existsb bad_setpos l | None => false end = false ->
+  match k_bymonthday kw with Some l => existsb (fun x => x =? 0) l | None => false end = false ->
   c_month (nodayparts kw && (fq =? 0)) (dmo start) (k_bymonth kw) = (rm, om) ->
   c_sortu (k_byyearday kw) = (ry, oy) ->
   c_sort (k_byeaster kw) = (re, oe) ->
@@ -196,9 +197,9 @@ Lemma ctor_eq ev st kw fq rm om ry oy re oe rp rn omd rw ow rwd rnwd owd rh oh r
              (match k_bysetpos kw with Some (x :: r) => OVals (x :: r) | _ => OAbsent end)
              om omd oy oe ow owd oh omi os).
 Proof.
-  intros Hf start interval Hu Hs Hm Hy He Hmd Hw Hwd Hh Hmi Hsec Hb.
+  intros Hf start interval Hu Hs Hz Hm Hy He Hmd Hw Hwd Hh Hmi Hsec Hb.
   unfold ctor. rewrite Hf. cbv zeta.
-  fold (zero_us st). fold start. fold interval. rewrite Hu, Hs.
+  fold (zero_us st). fold start. fold interval. rewrite Hu, Hs, Hz.
   fold (nodayparts kw). rewrite Hm, Hy, He, Hmd, Hw, Hwd, Hh, Hmi, Hsec, Hb. reflexivity.
 Qed.
 
@@ -231,6 +232,7 @@ Proof.
   destruct (match k_until kw with Some u => negb (Bool.eqb (aware (zero_us st)) (aware u)) | None => false end) eqn:Eu;
     [discriminate|].
   destruct (match k_bysetpos kw with Some l => existsb bad_setpos l | None => false end) eqn:Es; [discriminate|].
+  destruct (match k_bymonthday kw with Some l => existsb (fun x => x =? 0) l | None => false end) eqn:Ez; [discriminate|].
   destruct (c_month _ _ _) as [rm om] eqn:Em.
   destruct (c_sortu (k_byyearday kw)) as [ry oy] eqn:Ey.
   destruct (c_sort _) as [re oe] eqn:Ee.
@@ -246,11 +248,36 @@ Proof.
   cbv zeta. repeat split; assumption.
 Qed.
 
+Lemma c_mday_nozero derive d0 k p n o : c_mday derive d0 k = (p, n, o) ->
+  match ovals o with Some l => existsb (fun x => x =? 0) l | None => false end = false.
+Proof.
+  unfold c_mday. cbv zeta. intro H. injection H as _ _ <-.
+  destruct derive; [reflexivity|]. destruct k as [l|]; [|reflexivity]. cbn [ovals].
+  destruct (filter (fun x => 0 <? x) (sortu l) ++ filter (fun x => x <? 0) (sortu l)) as [|y t] eqn:E; [reflexivity|].
+  rewrite <- E. apply not_true_is_false. intro F. apply existsb_exists in F as [x [Hin Hx]].
+  apply in_app_or in Hin as [Hin|Hin]; apply filter_In in Hin as [_ Hc]; lia.
+Qed.
+
+(* BYMONTHDAY=0 is rejected by the constructor (55654b4) *)
+Lemma ctor_zero_check ev st kw r : ctor ev (Some st) kw = Ok r -> match k_bymonthday kw with Some l => existsb (fun x => x =? 0) l | None => false end = false.
+Proof.
+  unfold ctor. destruct (k_freq kw) as [fq|]; [|discriminate]. cbv zeta.
+  destruct (match k_until kw with Some u => _ | None => false end); [discriminate|].
+  destruct (match k_bysetpos kw with Some l => existsb bad_setpos l | None => false end); [discriminate|].
+  destruct (match k_bymonthday kw with Some l => existsb (fun x => x =? 0) l | None => false end); [discriminate|reflexivity].
+Qed.
+Lemma ctor_nozero ev st kw r : ctor ev (Some st) kw = Ok r -> nozero (k_bymonthday kw) = true.
+Proof.
+  intro H. apply ctor_zero_check in H. unfold nozero. destruct (k_bymonthday kw) as [l|]; [|reflexivity].
+  induction l as [|x l IH]; [reflexivity|]. cbn [existsb forallb] in *. apply orb_false_iff in H as [H1 H2].
+  rewrite H1, (IH H2). reflexivity.
+Qed.
+
 Definition wf_args (kw : kwargs) : bool :=
   nonempty (k_bysetpos kw) && nonempty (k_bymonth kw) && nonempty (k_bymonthday kw)
   && nonempty (k_byyearday kw) && nonempty (k_byeaster kw) && nonempty (k_byweekno kw)
   && nonempty (k_byhour kw) && nonempty (k_byminute kw) && nonempty (k_bysecond kw)
-  && nonempty (k_byweekday kw) && nozero (k_bymonthday kw) && wd_nz (k_byweekday kw).
+  && nonempty (k_byweekday kw) && wd_nz (k_byweekday kw).
 
 Lemma zero_us_idem d : zero_us (zero_us d) = zero_us d.
 Proof. reflexivity. Qed.
@@ -268,7 +295,8 @@ Proof.
     [fq [rm [om [ry [oy [re [oe [rp [rn [omd [rw [ow [rwd [rnwd [owd [rh [oh [rmi [omi [rs [os Hx]]]]]]]]]]]]]]]]]]]]].
   cbv zeta in Hx.
   destruct Hx as [Hf [Hu [Hs [Hm [Hy [He [Hmd [Hw [Hwd [Hh [Hmi [Hsec [Hb Hr]]]]]]]]]]]]].
-  unfold wf_args in Hwf. do 11 (apply andb_true_iff in Hwf as [Hwf ?]).
+  pose proof (ctor_nozero ev st kw r H) as Hnz. pose proof (ctor_zero_check ev st kw r H) as Hzc.
+  unfold wf_args in Hwf. do 10 (apply andb_true_iff in Hwf as [Hwf ?]).
   set (start := zero_us st) in *.
   set (interval := match k_interval kw with Some i => i | None => 1 end) in *.
   set (wkst := match k_wkst kw with Some w => w | None => e_fwd ev end) in *.
@@ -312,6 +340,7 @@ Proof.
   - reflexivity.
   - cbn [kw_of_rule k_until r_until]. unfold start. rewrite zero_us_idem. exact Hu.
   - cbn [kw_of_rule k_bysetpos og_bysetpos]. rewrite ovals_setpos by assumption. exact Hs.
+  - cbn [kw_of_rule k_bymonthday og_bymonthday]. apply (c_mday_nozero _ _ _ _ _ _ Hmd).
   - rewrite End. cbn [kw_of_rule k_bymonth og_bymonth]. unfold start. rewrite zero_us_idem. exact Hm2.
   - cbn [kw_of_rule k_byyearday og_byyearday]. exact Hy2.
   - cbn [kw_of_rule k_byeaster og_byeaster]. exact He2.
